@@ -49,7 +49,11 @@ func c10CoreBody(rc *RunCtx) {
 		k := fmt.Sprintf("secret/k%d", i)
 		v := fmt.Sprintf("value-%d", i)
 		if _, err := h.RootWrite(k, map[string]any{"v": v}); err != nil {
-			panic(err)
+			if len(hist) == 0 {
+				panic(err) // before any seal/rotation step: harness trouble
+			}
+			s.Violate("C10", "valid-operation-refused", map[string]any{"op": "write"}, "a write after %v failed with no fault injected: %v", hist, err)
+			return
 		}
 		data[k] = v
 	}
@@ -117,7 +121,8 @@ func c10CoreBody(rc *RunCtx) {
 		case 0: // seal, then unseal with duplicates / foreign shares / any order
 			hist = append(hist, "seal+unseal")
 			if err := h.Core.Seal(h.Root); err != nil {
-				panic(err)
+				viol("valid-operation-refused", map[string]any{"op": "seal"}, "seal with the root token failed with no fault injected: %v", err)
+				return
 			}
 			if resp, err := h.Do("sealed", Req{Op: logical.ReadOperation, Path: "secret/k0", Token: h.Root}); err == nil {
 				viol("sealed-core-served-request", nil, "request while sealed returned %v", resp)
@@ -173,7 +178,8 @@ func c10CoreBody(rc *RunCtx) {
 			hist = append(hist, "sys/rotate")
 			from := disk.LogLen()
 			if _, err := h.RootWrite("sys/rotate", nil); err != nil {
-				panic(err)
+				viol("valid-operation-refused", map[string]any{"op": "rotate"}, "sys/rotate failed with no fault injected: %v", err)
+				return
 			}
 			if !crashCheck("rotate", from, h.Keys, t, nil, 0) {
 				return
@@ -187,11 +193,13 @@ func c10CoreBody(rc *RunCtx) {
 			}
 			hist = append(hist, fmt.Sprintf("rekey %d/%d->%d/%d", t, n, t2, n2))
 			if cerr := h.Core.RekeyInit(&vault.SealConfig{SecretShares: n2, SecretThreshold: t2}, false); cerr != nil {
-				panic(cerr)
+				viol("valid-operation-refused", map[string]any{"op": "rekey-init"}, "rekey init failed with no fault injected: %v", cerr)
+				return
 			}
 			conf, cerr := h.Core.RekeyConfig(false)
 			if cerr != nil || conf == nil {
-				panic(fmt.Sprint("RekeyConfig: ", cerr))
+				viol("valid-operation-refused", map[string]any{"op": "rekey-config"}, "rekey config unavailable after init: %v", cerr)
+				return
 			}
 			ctx := namespace.RootContext(context.Background())
 			var res *vault.RekeyResult
@@ -200,7 +208,11 @@ func c10CoreBody(rc *RunCtx) {
 				from = disk.LogLen()
 				r, cerr := h.Core.RekeyUpdate(ctx, append([]byte{}, h.Keys[j]...), conf.Nonce, false)
 				if cerr != nil {
-					panic(fmt.Sprint("RekeyUpdate: ", cerr))
+					// the shares are the currently valid ones: the barrier
+					// refusing the root key they reconstruct is the property's
+					// "unsealing succeeds with the correct key" failing
+					viol("valid-operation-refused", map[string]any{"op": "rekey-update"}, "rekey update with valid share %d/%d failed with no fault injected: %v", j+1, t, cerr)
+					return
 				}
 				res = r
 			}
